@@ -767,6 +767,36 @@ pub fn bulk_junk(ctx: &mut Ctx, rig: &mut Rig, rng: &mut Rng, sock: usize, n: us
     ctx.emit(json!({"ev": "bulk", "n": consumed_total, "sent": n - left, "replies": replies, "panic": panic.is_some(), "panic_msg": panic.unwrap_or_default(), "wedged": wedged}));
 }
 
+/// many CLIENT ADDRESSES, one summarising event: one valid request from each of `n` distinct loopback addresses (127.1.x.y),
+/// in waves of 200 sockets; every request must be answered; the replies are counted and their sizes summed
+pub fn bulk_addrs(ctx: &mut Ctx, rig: &mut Rig, rng: &mut Rng, n: usize) {
+    let (mut next, mut consumed_total, mut replies, mut bytes) = (0usize, 0usize, 0u64, 0u64);
+    let mut panic: Option<String> = None;
+    let mut wedged = false;
+    let _ = rig.take_hooks();
+    let _ = rig.drain();
+    while next < n && panic.is_none() && !wedged {
+        let k = (n - next).min(200);
+        let mut socks = vec![];
+        for j in 0..k {
+            let ip = std::net::Ipv4Addr::from(0x7f01_0000u32 + (next + j) as u32 + 1);
+            let s = match std::net::UdpSocket::bind((ip, 0)) { Ok(s) => s, Err(_) => continue };
+            let _ = s.set_read_timeout(Some(std::time::Duration::from_millis(200)));
+            let d = valid_request(rng, if j % 2 == 0 { Proto::Google } else { Proto::Ietf }, 1024, None);
+            if s.send_to(&d, rig.addr).is_ok() { socks.push(s); }
+        }
+        let (p, w, c) = rig.pump(socks.len());
+        consumed_total += c;
+        panic = p;
+        wedged = w && rig.server_rx_queue() > 0;
+        let mut buf = [0u8; 2048];
+        for s in &socks { if let Ok((m, _)) = s.recv_from(&mut buf) { replies += 1; bytes += m as u64; } }
+        next += k;
+        let _ = rig.take_hooks();
+    }
+    ctx.emit(json!({"ev": "bulk_addrs", "n": consumed_total, "addrs": next, "replies": replies, "bytes": bytes, "panic": panic.is_some(), "panic_msg": panic.unwrap_or_default(), "wedged": wedged}));
+}
+
 /// C10: seeds x restarts: identity and certificates
 pub fn drive_seeds(ctx: &mut Ctx, rng: &mut Rng, thorough: bool) {
     let mut seeds: Vec<Vec<u8>> = vec![vec![0u8; 32], vec![0xff; 32], unhex("9d61b19deffd5a60ba844af492ec2cc44449c5697b326919703bac031cae7f60"), unhex(DEFAULT_SEED)];
@@ -892,7 +922,13 @@ pub fn drive_cfgleak(ctx: &mut Ctx, rng: &mut Rng, workdir: &str) {
             format!("seed: {{value: {}}}\nport: 8686\ninterface: 127.0.0.1\n", sh),
         ];
         // the environment source with a seed that carries the key material but is not clean hex
-        for (di, deco) in [format!("0x{}", sh), format!("{} ", sh), format!("\"{}\"", sh), format!("{}0", sh), format!(" {}", sh), sh.to_uppercase()].iter().enumerate() {
+        // (... or is not even text: a stray byte that is not valid UTF-8 behind or in front of the digits)
+        use std::os::unix::ffi::OsStringExt;
+        let mut decos: Vec<std::ffi::OsString> = [format!("0x{}", sh), format!("{} ", sh), format!("\"{}\"", sh), format!("{}0", sh), format!(" {}", sh), sh.to_uppercase()].iter().map(|x| x.into()).collect();
+        decos.push(std::ffi::OsString::from_vec([sh.as_bytes(), &[0xA0u8][..]].concat()));
+        decos.push(std::ffi::OsString::from_vec([&[0xFFu8][..], sh.as_bytes()].concat()));
+        decos.push(std::ffi::OsString::from_vec([&sh.as_bytes()[..32], &[0xC3u8][..], &sh.as_bytes()[32..]].concat()));
+        for (di, deco) in decos.iter().enumerate() {
             let all_env = ["PORT", "INTERFACE", "SEED", "BATCH_SIZE", "STATUS_INTERVAL", "KMS_PROTECTION", "HEALTH_CHECK_PORT", "CLIENT_STATS", "FAULT_PERCENTAGE", "NUM_WORKERS", "PERSISTENCE_DIRECTORY"];
             for k in all_env { std::env::remove_var(format!("ROUGHENOUGH_{}", k)); }
             std::env::set_var("ROUGHENOUGH_PORT", "8686"); std::env::set_var("ROUGHENOUGH_INTERFACE", "127.0.0.1"); std::env::set_var("ROUGHENOUGH_SEED", deco);
@@ -1057,6 +1093,15 @@ pub fn drive_stats(ctx: &mut Ctx, rng: &mut Rng, thorough: bool) {
         }
         let st = rig.stats_event();
         ctx.emit(st);
+        // SCALE: more client addresses in one publication period than any chunk size, queue capacity x chunk size or 16-bit
+        // count a publication step might go by (17 000 > 4 x 4 096 > 2^14; thorough: 70 000 > 2^16): one snapshot, every address
+        if k == 1 {
+            let e = rig.publish_step(true); ctx.emit(e);
+            bulk_addrs(ctx, &mut rig, rng, if thorough { 70_000 } else { 17_000 });
+            let e = rig.publish_step(true); ctx.emit(e);
+            let st = rig.stats_event();
+            ctx.emit(st);
+        }
     }
 }
 
@@ -1075,6 +1120,8 @@ pub fn drive_slowdrain(ctx: &mut Ctx, rng: &mut Rng, thorough: bool) {
         if !thorough { break; }
     }
     // the same request sent again more than a radius later (a retransmission): its response must state the clock of ITS batch
+    // (this section runs in a zone with daylight-saving rules: the zone of the server process is not part of the signed time)
+    std::env::set_var("TZ", "EST5EDT,M3.2.0,M11.1.0");
     if let Some(mut rig) = new_section(ctx, cfg(8, 0, 0, 4)) {
         let rg = valid_request(rng, Proto::Google, 1024, None);
         let ri = valid_request(rng, Proto::Ietf, 1024, None);
@@ -1099,6 +1146,7 @@ pub fn drive_slowdrain(ctx: &mut Ctx, rng: &mut Rng, thorough: bool) {
         crate::util::unstep_clock();
         ctx.emit(json!({"ev": "clock_step", "secs": 0}));
     }
+    std::env::remove_var("TZ");
 }
 
 /// a small mixed driver run by every server-based check
